@@ -16,13 +16,13 @@
 (*      Clause(): a value of a documented signature or a werkzeug HTTP exception with a 4xx  *)
 (*      code; anything else is named NoUnrelatedException / DocumentedType / Terminates.     *)
 (* Text is a sequence of code points.  Nothing here is transcribed from the implementation.  *)
-EXTENDS Naturals, Sequences, FiniteSets, TLC, Bytes
+EXTENDS Naturals, Sequences, FiniteSets, TLC, Bytes, HostileBody
 
 (* ---- (a) domain ------------------------------------------------------------------------- *)
 DomainChars == (32..126) \cup (128..255)
 InDomain(s) == \A i \in 1..Len(s) : s[i] \in DomainChars
 
-Families == <<"options", "ctype", "cond", "auth", "cookie", "url", "range", "date">>
+Families == <<"options", "ctype", "cond", "auth", "cookie", "url", "range", "date", "body">>
 
 Tok_options == <<
   <<97>>,   \*  1  a
@@ -341,10 +341,10 @@ DateZones == {<<>>, <<32, 71, 77, 84>>, <<32, 85, 84>>, <<32, 90>>, <<32, 69, 83
 
 Toks(fam) == CASE fam = "options" -> Tok_options [] fam = "ctype" -> Tok_ctype [] fam = "cond" -> Tok_cond
                [] fam = "auth" -> Tok_auth [] fam = "cookie" -> Tok_cookie [] fam = "url" -> Tok_url
-               [] fam = "range" -> Tok_range [] fam = "date" -> Tok_date
+               [] fam = "range" -> Tok_range [] fam = "date" -> Tok_date [] fam = "body" -> Tok_body
 Ctxs(fam) == CASE fam = "options" -> Ctx_options [] fam = "ctype" -> Ctx_ctype [] fam = "cond" -> Ctx_cond
                [] fam = "auth" -> Ctx_auth [] fam = "cookie" -> Ctx_cookie [] fam = "url" -> Ctx_url
-               [] fam = "range" -> Ctx_range [] fam = "date" -> Ctx_date
+               [] fam = "range" -> Ctx_range [] fam = "date" -> Ctx_date [] fam = "body" -> Ctx_body
 
 \* text of a sequence of token indices
 RECURSIVE TextOf(_, _)
@@ -401,6 +401,7 @@ DateTexts ==
 
 GramTexts(fam) == CASE fam = "range" -> RangeTexts \cup ContentRangeTexts
                     [] fam = "date" -> DateTexts
+                    [] fam = "body" -> BodyCTypeTexts      \* HostileBody: CONTENT_TYPE grammar of the body family
                     [] OTHER -> {}
 
 \* which pure functions and which environ slots of a Request a family is fed to
@@ -417,6 +418,7 @@ FamFns(fam) ==
     [] fam = "url"     -> <<"parse_list_header">>
     [] fam = "range"   -> <<"parse_range_header", "parse_content_range_header", "parse_if_range_header", "parse_age">>
     [] fam = "date"    -> <<"parse_date", "parse_if_range_header">>
+    [] fam = "body"    -> <<"parse_options_header">>
 FamSlots(fam) ==
   CASE fam = "options" -> <<"ACCEPT", "ACCEPT_CHARSET", "ACCEPT_ENCODING", "ACCEPT_LANGUAGE", "CACHE_CONTROL", "PRAGMA",
                             "ACR_HEADERS", "ALL_HEADERS">>
@@ -429,6 +431,7 @@ FamSlots(fam) ==
                             "ACR_METHOD", "CONTENT_ENCODING", "CONTENT_MD5", "ALL_HEADERS">>
     [] fam = "range"   -> <<"RANGE", "IF_RANGE", "CONTENT_LENGTH", "MAX_FORWARDS">>
     [] fam = "date"    -> <<"IF_MODIFIED_SINCE", "IF_UNMODIFIED_SINCE", "IF_RANGE", "DATE">>
+    [] fam = "body"    -> <<>>   \* the body family's texts are the CONTENT_TYPE of function "RequestBody" (see BodySlots)
 Slots == {"HOST", "COOKIE", "AUTHORIZATION", "ACCEPT", "ACCEPT_CHARSET", "ACCEPT_ENCODING", "ACCEPT_LANGUAGE", "CACHE_CONTROL",
           "PRAGMA", "IF_MATCH", "IF_NONE_MATCH", "IF_MODIFIED_SINCE", "IF_UNMODIFIED_SINCE", "IF_RANGE", "RANGE", "DATE",
           "MAX_FORWARDS", "X_FORWARDED_FOR", "USER_AGENT", "REFERER", "ORIGIN", "CONTENT_ENCODING", "CONTENT_MD5", "ACR_HEADERS",
@@ -504,6 +507,29 @@ RequestPositions ==
      C("json", TRUE, {"dict"}, {"str:list[int|str]"}),
      V("make_form_data_parser", FALSE, {"FormDataParser"}), V("repr", FALSE, {"str"}), V("close", FALSE, {None}) >>
 
+(* The body family: function "RequestBody" builds a Request whose CONTENT_TYPE is the hostile text, whose   *)
+(* body is one of HostileBody!Bodies and whose CONTENT_LENGTH is one of the variants (slot = "body|variant"). *)
+(* Documented behaviour per body-derived attribute: form / files / values -- the form parser is silent: a    *)
+(* malformed body gives empty multi dicts (ValueError is swallowed by design), limits give 413; data /       *)
+(* get_data -- bytes (str with as_text, decoded with replacement); get_json / json -- any JSON value, 415    *)
+(* when the mimetype is not JSON, 400 when the document cannot be decoded; stream.read -- bytes, 400         *)
+(* ClientDisconnected when the body is shorter than CONTENT_LENGTH; content_length -- int, None without the   *)
+(* header, 0 for a malformed / negative value; mimetype -- lower-cased str; mimetype_params -- dict[str,str]. *)
+JsonHeads == {"dict", "list", "str", "int", "float", "bool", None}
+BodyMap == {"str:str"}
+RequestBodyPositions ==
+  [w \in 1..Len(RequestPositions) |->
+     IF RequestPositions[w].n \in {"get_json_silent", "get_json", "json"} THEN C(RequestPositions[w].n, TRUE, JsonHeads, {"*"})
+     ELSE RequestPositions[w]] \o
+  << V("fresh.stream.read", TRUE, {"bytes"}), V("fresh.get_data", TRUE, {"bytes"}), V("fresh.get_data_text", TRUE, {"str"}),
+     C("fresh.get_json_force", TRUE, JsonHeads, {"*"}), C("fresh.get_json_force_silent", TRUE, JsonHeads, {"*"}),
+     C("fresh.files", TRUE, {"ImmutableMultiDict"}, {"str:FileStorage"}), C("fresh.values", TRUE, {"CombinedMultiDict"}, BodyMap),
+     C("fresh.read_then_form", TRUE, {"ImmutableMultiDict"}, BodyMap), V("fresh.close", TRUE, {None}),
+     C("files.read", FALSE, {"list"}, {"bytes"}), C("files.names", FALSE, {"list"}, OptStr),
+     C("files.mimetype_params", FALSE, {"list"}, {"dict[]", "dict[str:str]"}), C("files.content_length", FALSE, {"list"}, {"int"}) >>
+
+BodySlots == {Bodies[i][1] \o "|" \o CLNames[j] : i \in 1..Len(Bodies), j \in 1..Len(CLNames)}
+
 Table ==
   "parse_options_header" :> << V("call", TRUE, {"tuple[str,dict[]]", "tuple[str,dict[str:str]]"}) >> @@
   "parse_list_header" :> << C("call", TRUE, {"list"}, {"str"}) >> @@
@@ -556,7 +582,8 @@ Table ==
         V("to_header", FALSE, {"str"}), V("str", FALSE, {"str"}) >> @@
   "unquote_etag" :> << V("call", TRUE, {"tuple[str,bool]", "tuple[NoneType,NoneType]"}) >> @@
   "unquote_header_value" :> << V("call", TRUE, {"str"}) >> @@
-  "Request" :> RequestPositions
+  "Request" :> RequestPositions @@
+  "RequestBody" :> RequestBodyPositions
 
 Fns == DOMAIN Table
 
@@ -564,7 +591,7 @@ Fns == DOMAIN Table
 \* ty: signature of the value, or <<exception class name>>.  first = <<kd, ty>> of position 1.
 Clause(fn, w, kd, ty, kd1, ty1) ==
   LET p == Table[fn][w] IN
-  IF kd = 0 THEN (IF Len(ty) >= 1 /\ ty[1] \in p.h /\ \A k \in 2..Len(ty) : ty[k] \in p.e THEN "ok" ELSE "DocumentedType")
+  IF kd = 0 THEN (IF Len(ty) >= 1 /\ ty[1] \in p.h /\ ("*" \in p.e \/ \A k \in 2..Len(ty) : ty[k] \in p.e) THEN "ok" ELSE "DocumentedType")
   ELSE IF kd = 1 THEN "NoUnrelatedException"
   ELSE IF kd = 2 THEN "Terminates"
   ELSE IF kd = 3 THEN (IF w > 1 /\ (kd1 # 0 \/ ty1 = <<None>>) THEN "ok" ELSE "MalformedTraceLine")
@@ -573,9 +600,9 @@ Clause(fn, w, kd, ty, kd1, ty1) ==
 
 TableWellFormed ==
   /\ \A fn \in Fns : Len(Table[fn]) >= 1 /\ Table[fn][1].n = "call" /\ Table[fn][1].core
-  /\ \A i \in 1..Len(Families) : /\ \A k \in 1..Len(FamFns(Families[i])) : FamFns(Families[i])[k] \in Fns \ {"Request"}
+  /\ \A i \in 1..Len(Families) : /\ \A k \in 1..Len(FamFns(Families[i])) : FamFns(Families[i])[k] \in Fns \ {"Request", "RequestBody"}
                                  /\ \A k \in 1..Len(FamSlots(Families[i])) : FamSlots(Families[i])[k] \in Slots
-  /\ \A fn \in Fns \ {"Request"} : \E i \in 1..Len(Families) : \E k \in 1..Len(FamFns(Families[i])) : FamFns(Families[i])[k] = fn
+  /\ \A fn \in Fns \ {"Request", "RequestBody"} : \E i \in 1..Len(Families) : \E k \in 1..Len(FamFns(Families[i])) : FamFns(Families[i])[k] = fn
   /\ \A sl \in Slots : \E i \in 1..Len(Families) : \E k \in 1..Len(FamSlots(Families[i])) : FamSlots(Families[i])[k] = sl
   /\ \A i \in 1..Len(Families) : /\ \A k \in 1..Len(Toks(Families[i])) : Toks(Families[i])[k] # <<>> /\ InDomain(Toks(Families[i])[k])
                                  /\ \A k \in 1..Len(Ctxs(Families[i])) : InDomain(Ctxs(Families[i])[k][1] \o Ctxs(Families[i])[k][2])
